@@ -956,6 +956,18 @@ def blocking_part(job, r):
             r.count('blocking_short_read_variants')
             if q.rc != 0 or core_sig(q.get('sig')) != good:
                 r.viol('blocking-tcp:short-read-changes-outcome', 'recv pattern %s: rc=%#x (unchunked: success)' % (sc, q.rc), 'recv=%s reply=%s' % (sc, state['body'].hex()[:300]))
+        # short writes / EINTR: send() takes only part of what it is offered; what arrives must still be the one serialized request
+        wscripts = ['1', '1,1,1,1,1,1', '2,5,64', '-2,3,-2,1', '87', '40,1'] + [','.join(str(rng.choice([1, 2, 3, 7, 50, -2])) for _ in range(rng.randint(1, 40))) for _ in range(6)]
+        for sc in wscripts:
+            state.update(cut=None, recv='-')
+            state.pop('bad', None)
+            c('net_ep agg.example 3332 connect=0 send=%s recv=-' % sc)
+            q = c('sign 0 0 ' + h.hex())
+            c('net_ep agg.example 3332 connect=0 send=- recv=-')
+            r.observe(('blocking-short-write', min(sc.count(','), 8), '-2' in sc))
+            r.count('blocking_short_write_variants')
+            if q.rc != 0 or core_sig(q.get('sig')) != good:
+                r.viol('blocking-tcp:short-write-changes-outcome', 'send() accepting %s octets per call: rc=%#x (whole write: success)%s' % (sc, q.rc, '; what arrived is not a request: ' + state['bad'] if state.get('bad') else ''), 'send=%s' % sc)
         # EOF / reset / timeout at every offset
         offs = range(0, L) if L <= 1500 else sorted(set(list(range(0, 12)) + [L - 1, L - 2] + rng.sample(range(L), 40)))
         for off in offs:
@@ -999,4 +1011,4 @@ def run(ctx):
     if not ctx.violations and not ctx.known_printed:
         ctx.require(c.get('blocked_both_ways_completed', 0) >= 50 and c.get('pushed_config_streams', 0) >= 50 and c.get('config_request_overtaken_later_completed', 0) >= 20, 'blocked established connections, pushed configurations and overtaken configuration requests observed')
         ctx.require(c.get('later_request_after_cut_resp', 0) >= 200, 'requests completed on a fresh connection after a cut')
-        ctx.require(c.get('chunking_variants', 0) >= 1000 and c.get('fault_positions', 0) >= 500 and c.get('blocking_fault_positions', 0) >= 500, 'chunkings and fault positions explored')
+        ctx.require(c.get('chunking_variants', 0) >= 1000 and c.get('fault_positions', 0) >= 500 and c.get('blocking_fault_positions', 0) >= 500 and c.get('blocking_short_write_variants', 0) >= 100, 'chunkings and fault positions explored')
